@@ -1135,9 +1135,29 @@ func (fc *FuncCtx) callByContract(con *Contract, ref *FuncRef, fn *types.Func, a
 	}
 	if con.Decreases != nil && fc.Con.Decreases != nil && (con.Key == fc.Con.Key || con.RecGroup != "" && con.RecGroup == fc.Con.RecGroup) {
 		// (mutually) recursive call: the variant at the callee's arguments is non-negative and smaller than at entry
-		v1 := fc.spec(con.Decreases, env)
-		v0 := fc.spec(fc.Con.Decreases, fc.newEnv(fc.entry))
-		fc.oblig(st, "call."+ord+".decreases", And(Le(IntLit(0), v1), Lt(v1, v0)), "recursion terminates: decreases "+con.DecSrc, pos, nil)
+		// `decreases lex(a, b, ...)`: lexicographic order on tuples of non-negative integers
+		comps := func(e SExpr) []SExpr {
+			if c, ok := e.(SCall); ok && c.Fn == "lex" && len(c.Args) >= 1 {
+				return c.Args
+			}
+			return []SExpr{e}
+		}
+		c1, c0 := comps(con.Decreases), comps(fc.Con.Decreases)
+		if len(c1) != len(c0) {
+			fc.unsupported(st, "variants of different arity inside one recursion group", pos)
+		} else {
+			e0 := fc.newEnv(fc.entry)
+			var nonneg, less []Term
+			eqSoFar := True
+			for k := range c1 {
+				v1 := fc.spec(c1[k], env)
+				v0 := fc.spec(c0[k], e0)
+				nonneg = append(nonneg, Le(IntLit(0), v1))
+				less = append(less, And(eqSoFar, Lt(v1, v0)))
+				eqSoFar = And(eqSoFar, Eq(v1, v0))
+			}
+			fc.oblig(st, "call."+ord+".decreases", And(And(nonneg...), Or(less...)), "recursion terminates: decreases "+con.DecSrc, pos, nil)
+		}
 	}
 	// panic paths of the callee: it may have modified what its contract lets it modify, and its onpanic
 	// clauses hold
